@@ -226,6 +226,13 @@ pub fn gen_history(rng: &mut Rng, l: &Layout, maxlen: usize, twin: bool, has_bui
                 };
                 let v = Hex(gen_value(rng, l, f));
                 let slot = rng.usize_below(nslots);
+                // C11 only: now and then address an element at or just beyond `count` (must
+                // panic; if it returns normally it is an operation like any other)
+                let i = if twin && l.fields[f].array.is_some() && rng.chance(5, 100) {
+                    l.fields[f].count() + rng.below(4) as u32
+                } else {
+                    i
+                };
                 let op = match k {
                     0 => Op::Set { slot, f, i, v },
                     1 => Op::With { src: slot, dst: slot, f, i, v },
